@@ -2,7 +2,7 @@
 import math
 import random
 
-PERIODS = [0.5, 1, 5, 7.5, 15, 60]
+PERIODS = [0.5, 1, 5, 7.5, 15, 60, 7, 13, 2.5, 45]
 VOLTAGES = [120, 208, 240, 277]
 PHASES3 = [30, -90, 150]
 
@@ -72,7 +72,7 @@ def valid_pilot(e, rng):
 
 # ---------------------------------------------------------------- networks
 def rand_network(rng, nmax=8, kinds=("EVSE", "DB", "FR"), constraint_free_p=0.2,
-                 tol=None, nmin=1, bind=None, inf_p=0.1):
+                 tol=None, nmin=1, bind=None, inf_p=0.1, exotic_ids_p=0.15):
     n = rng.randint(nmin, nmax)
     layout = rng.choice(["zero", "three", "three", "arb"])
     hetero_v = rng.random() < 0.6
@@ -91,6 +91,12 @@ def rand_network(rng, nmax=8, kinds=("EVSE", "DB", "FR"), constraint_free_p=0.2,
             "voltage": rng.choice(VOLTAGES) if hetero_v else v0,
             "phase": ph,
         })
+    if rng.random() < exotic_ids_p:
+        # station ids as real sites have them: numeric-looking strings, dashes, spaces, dots, non-ASCII
+        style = rng.choice(["num", "dash", "space", "uni", "long"])
+        for i, s_ in enumerate(stations):
+            s_["id"] = {"num": f"{i + 1:02d}", "dash": f"CA-{300 + 7 * i}", "space": f"st {i}.a", "uni": f"stä{i}·β",
+                        "long": f"2-39-{78 + i}-{360 + i}"}[style]
     rng.shuffle(stations)
     ids = [s["id"] for s in stations]
     cons = []
